@@ -1,6 +1,7 @@
 //! Generic program runner.
 //! case: {"id":…, "src": "<program>" | "stmts": ["<stmt>", …], "fuel": n (default 2_000_000),
-//!        "fresh": bool (default false: a child scope of one shared initialised env)}
+//!        "fresh": bool (default false: a child scope of one shared initialised env),
+//!        "cli": bool (default false; true: run the way src/main.rs does, through noulith::warn first)}
 //! result: {"status","val"|"msg"|…,"out"} or {"results":[…]} for "stmts".
 use nvh::noulith::{Env, Rc};
 use nvh::serde_json::{json, Value};
@@ -10,6 +11,8 @@ fn main() {
     nvh::serve(|case| {
         let fuel = case.get("fuel").and_then(|v| v.as_i64()).unwrap_or(2_000_000);
         let fresh = case.get("fresh").and_then(|v| v.as_bool()).unwrap_or(false);
+        let cli = case.get("cli").and_then(|v| v.as_bool()).unwrap_or(false);
+        let run = if cli { nvh::run_src_cli } else { nvh::run_src };
         let (env, out) = if fresh {
             nvh::fresh_env()
         } else {
@@ -21,7 +24,7 @@ fn main() {
         if let Some(stmts) = case.get("stmts").and_then(|v| v.as_array()) {
             let mut results: Vec<Value> = Vec::new();
             for s in stmts {
-                let mut r = nvh::run_src(&env, s.as_str().unwrap_or(""));
+                let mut r = run(&env, s.as_str().unwrap_or(""));
                 r.as_object_mut().unwrap().insert("out".into(), json!(out.take()));
                 let stop = r["status"] == "panic";
                 results.push(r);
@@ -33,7 +36,7 @@ fn main() {
             json!({ "results": results })
         } else {
             let src = case.get("src").and_then(|v| v.as_str()).unwrap_or("");
-            let mut r = nvh::run_src(&env, src);
+            let mut r = run(&env, src);
             r.as_object_mut().unwrap().insert("out".into(), json!(out.take()));
             nvh::set_fuel(-1);
             r
